@@ -28,7 +28,7 @@ EXPLANATION = (
     "edits go through the boundary-aware helper only (no str.replace on equations in _update_equation; the rule table keys "
     "replace/remove/append/prepend are each handled).  R5 the key under which a definition is stored in the dump dictionary is re-tested "
     "until it is unused or holds an equal definition (a while loop, not a single if).  R6 from_yaml derives through update_template of "
-    "the loaded base and instantiates known classes with exactly the loaded dictionary.  R4 also: no replace/remove edit can run after an append/prepend edit of the same update (added text is not rewritten).  R10 equations given under `add` reach the derived template and are not iterated into the edit helper.  NOT decided: dynamics of round-tripped models, "
+    "the loaded base and instantiates known classes with exactly the loaded dictionary.  R4 also: no replace/remove edit can run after an append/prepend edit of the same update (added text is not rewritten).  R10 equations given under `add` reach the derived template and are not iterated into the edit helper.  R11 what dict_from_yaml hands out shares no container with file content retained beyond the call (effect origins of its return value).  NOT decided: dynamics of round-tripped models, "
     "relative path resolution on a file system, ruamel.yaml behaviour; a dumped operator variant gets a new name (op_num1) - a format "
     "limitation that is outside these rules."
 )
@@ -530,6 +530,42 @@ def r10_added_equations_verbatim(ctx, rid):
         ctx.violation(rid, f0, ctor[-1], "the equations given under `add` never reach the equations of the derived template", label="added equations are kept")
 
 
+def r11_loaded_definition_is_private(ctx, rid):
+    """The dictionary dict_from_yaml returns is consumed destructively downstream (from_yaml pops `base`, update_template pops `add`
+    from the equation edits, node overrides are written into variation dicts).  If the parsed file content is RETAINED anywhere that
+    outlives the call (a module-level / class-level cache), what is handed out must share no container with it: a deep copy, not the
+    cached object and not a shallow copy of it."""
+    from engine.inline import inlined
+    from engine.effects import analyse, fmt_origin
+    f0 = ctx.repo.get_func("pyrates/frontend/fileio/yaml.py", "dict_from_yaml")
+    f = inlined(ctx, f0)
+    an = analyse(ctx.effects, f, None)
+    rets = [r for r in walk_shallow(f.node) if isinstance(r, ast.Return) and r.value is not None]
+    if not rets:
+        raise AnalysisError(f"{rid}: dict_from_yaml has no return value")
+    for r in rets:
+        orig = an.origins(r.value)
+
+        def retained(o):
+            if o[0] == "G":
+                return o
+            if o[0] == "C":
+                return retained(o[1])
+            return None
+        shared = [o for o in orig if retained(o) is not None]
+        facts = {"origins": sorted(fmt_origin(o) for o in orig)}
+        if shared:
+            o = shared[0]
+            kind = "a shallow copy of" if o[0] == "C" else "the very object kept in"
+            ctx.violation(rid, f0, r, f"dict_from_yaml hands out {kind} `{fmt_origin(retained(o))}`, data that is retained beyond the call: nested "
+                                      f"containers (equation edits, variables, per-node overrides) are shared with the cache, and the consumers "
+                                      f"pop from / write into them, so a second load of the same template sees an edited definition",
+                          facts, label="loaded definition shares nothing with retained file content")
+        else:
+            ctx.ok(rid, f0, r, "the returned definition shares nothing with data retained beyond the call", facts,
+                   label="loaded definition shares nothing with retained file content")
+
+
 def _anc15(n):
     from engine.srcmodel import parent
     p = parent(n)
@@ -549,4 +585,5 @@ RULES = [
     ("C15-R8", r8_boundary_vocabulary, 1),
     ("C15-R9", r9_cached_defaults, 2),
     ("C15-R10", r10_added_equations_verbatim, 2),
+    ("C15-R11", r11_loaded_definition_is_private, 1),
 ]
